@@ -3,6 +3,7 @@
    HSolver::ChargeOnConductor, CHMaterialProp::GetK); the statements of hsolver.cpp shared with
    esolver.cpp are AsmE's definitions applied to [eview P].  Proofs: AsmOpsProofs.v,
    AsmEProofs.v, AsmHProofs.v, AsmHInt.v (edge integrals, Coquelicot).  Real-number reading. *)
+Set Warnings "-ambiguous-paths".
 From Coquelicot Require Import Coquelicot.
 From Coq Require Import ZArith List Bool Arith Lia Reals Lra.
 From XF Require Import Arith Sparse SparseProofs AsmOps AsmOpsProofs AsmE AsmEProofs KT AsmH AsmHProofs AsmHInt.
@@ -289,6 +290,16 @@ Proof.
 Qed.
 Print Assumptions C04_getk_at_knots_and_continuity.
 
+(* 10b. continuity, in the analytic sense, of both components at every interior knot *)
+Theorem C04_getk_continuous_at_knots :
+  forall (kx ky : R) (pre : list (R * R)) (ti ki tj kj tm km : R) (post : list (R * R)),
+  let tk := pre ++ (ti, ki) :: (tj, kj) :: (tm, km) :: post in
+  tk_sorted tk ->
+  continuity_pt (fun t => fst (getk RA kx ky tk t)) tj /\
+  continuity_pt (fun t => snd (getk RA kx ky tk t)) tj.
+Proof. exact getk_continuous_at_knot. Qed.
+Print Assumptions C04_getk_continuous_at_knots.
+
 (* 11. The scan "is any element nonlinear".  As shipped (loop bound NumNodes, index into the
        element list) it is REFUTED on the faithful model: there is a mesh with more elements
        than nodes whose only element with a T-k table has an index >= NumNodes, and the scan
@@ -340,21 +351,35 @@ Print Assumptions C04_outer_iteration_exit.
 
 (* 13. Conductor heat flows: each element's contribution to HSolver::ChargeOnConductor is the
        conduction (Galerkin stiffness) reaction of the conductor's nodes in that element, with the
-       conductivity evaluated at the final temperatures. *)
-Theorem C04_conductor_flow_is_stiffness_reaction :
-  forall (P : hprob (F:=R)) (Depth : R) (V Pv : vecT R) (Z : R) (el : eelem),
-  ga (el_geom (eview RA P) el) <> 0 ->
+       conductivity evaluated at the final temperatures, divided by [hoc_kludge]: 1 in the code as
+       shipped (extfix = false), the external-region kludge of the assembly in the repaired
+       variant (extfix = true).  As shipped the reported flow is therefore the reaction of the
+       ASSEMBLED equations only when the conductor touches no element of the external region
+       (_partial); the repaired variant agrees with the assembly for every element. *)
+Theorem C04_conductor_flow_is_stiffness_reaction_partial :
+  forall (P : hprob (F:=R)) (extfix : bool) (extRo extRi extZo Depth : R) (V Pv : vecT R) (Z : R) (el : eelem),
+  ga (el_geom (eview RA P) el) <> 0 -> hoc_kludge P extfix extRo extRi extZo el <> 0 ->
   let g := el_geom (eview RA P) el in
   let De := if haxi P then 2 * PI * gr g else Depth in
   let kn := kn_of RA P V el in
-  let Ke := fun j k => galerkin_K De (fst kn) (snd kn) g j k in
+  let Ke := fun j k => galerkin_K De (fst kn) (snd kn) g j k / hoc_kludge P extfix extRo extRi extZo el in
   let n := fun j => tri_get (ep el) j in
-  hoc_elem RA P Depth V Pv Z el =
+  hoc_elem RA P extfix extRo extRi extZo Depth V Pv Z el =
     Z + (vget RA Pv (n 0%nat) * (Ke 0%nat 0%nat * vget RA V (n 0%nat) + Ke 0%nat 1%nat * vget RA V (n 1%nat) + Ke 0%nat 2%nat * vget RA V (n 2%nat))
        + vget RA Pv (n 1%nat) * (Ke 1%nat 0%nat * vget RA V (n 0%nat) + Ke 1%nat 1%nat * vget RA V (n 1%nat) + Ke 1%nat 2%nat * vget RA V (n 2%nat))
        + vget RA Pv (n 2%nat) * (Ke 2%nat 0%nat * vget RA V (n 0%nat) + Ke 2%nat 1%nat * vget RA V (n 1%nat) + Ke 2%nat 2%nat * vget RA V (n 2%nat))).
 Proof. exact conductor_flow_is_stiffness_reaction. Qed.
-Print Assumptions C04_conductor_flow_is_stiffness_reaction.
+Print Assumptions C04_conductor_flow_is_stiffness_reaction_partial.
+
+Theorem C04_conductor_flow_divisor :
+  forall (P : hprob (F:=R)) (extRo extRi extZo D0 k0 : R) (el : eelem),
+  hoc_kludge P false extRo extRi extZo el = 1 /\
+  (haxi P = true ->
+   hoc_kludge P true extRo extRi extZo el = snd (elem_dk (eview RA P) extRo extRi extZo D0 k0 el)).
+Proof.
+  intros. split; [apply hoc_kludge_asis|apply hoc_kludge_is_assembly_kludge].
+Qed.
+Print Assumptions C04_conductor_flow_divisor.
 
 (* ---- non-vacuity ---- *)
 (* the freshly created (and wiped) system meets the hypotheses of the loop theorems *)
